@@ -559,7 +559,7 @@ func (s *c13Sched) nameParked() {
 		}
 	}
 	sort.SliceStable(s.parked, func(i, j int) bool { return s.parked[i].name < s.parked[j].name })
-	if os.Getenv("C13_DEBUG_LOG") != "" {
+	if os.Getenv("C13_DEBUG_LOG") != "" && !s.closed {
 		// determinism self-check: fingerprint of what is parked at every quiescent point
 		h := fnv.New64a()
 		fmt.Fprintf(h, "%x|", s.stateHash)
@@ -980,6 +980,18 @@ func c13TaskPoolCase(rt *rapid.T) {
 			s.classes["close"] = true
 			s.mu.Unlock()
 			s.pool.Close()
+			// Shutdown: from here on nothing is scheduled any more (whether a woken
+			// convoy still runs what is left in its channel is a coin toss of its
+			// select); every parked goroutine is let go and only termination and
+			// at-most-once execution are judged.
+			s.mu.Lock()
+			s.free = true
+			parked := s.parked
+			s.parked = nil
+			s.mu.Unlock()
+			for _, p := range parked {
+				close(p.resume)
+			}
 		}
 	}
 
